@@ -100,8 +100,8 @@ type SeqCase struct {
 
 func genSeq(t *rapid.T) SeqCase {
 	c := SeqCase{TTLSec: rapid.SampledFrom([]int{8, 60, 3600}).Draw(t, "ttl")}
-	lo := rapid.IntRange(1, 60).Draw(t, "minops") // lower bound only: keeps histories long, still lets the shrinker delete steps
-	c.Ops = rapid.SliceOfN(rapid.Custom(func(t *rapid.T) Op {
+	// Slice of slices: long histories on average (about 30 operations) that the shrinker can still delete from.
+	chunks := rapid.SliceOfN(rapid.SliceOfN(rapid.Custom(func(t *rapid.T) Op {
 		k := rapid.SampledFrom([]int{0, 0, 0, 0, 1, 1, 1, 2, 2, 3, 3, 4}).Draw(t, "k")
 		op := Op{K: k}
 		switch k {
@@ -118,7 +118,10 @@ func genSeq(t *rapid.T) SeqCase {
 			op.Adv = rapid.IntRange(0, 6).Draw(t, "adv")
 		}
 		return op
-	}), lo, 70).Draw(t, "ops")
+	}), 0, 12), 1, 10).Draw(t, "ops")
+	for _, ch := range chunks {
+		c.Ops = append(c.Ops, ch...)
+	}
 	return c
 }
 
@@ -228,7 +231,11 @@ func runSeq(c SeqCase) pbt.Verdict {
 				// The store can hold at most one entry per peer that ever announced, so a
 				// lookup this large returns every entry: each fresh announcement must be there.
 				fresh := 0
-				for p, a := range model[op.T] {
+				for p := 0; p < seqPeers; p++ { // fixed order: the message must not depend on map iteration
+					a, ok := model[op.T][p]
+					if !ok {
+						continue
+					}
 					age := now.Sub(a.at)
 					if age < ttl {
 						fresh++
@@ -321,12 +328,11 @@ func genStress(t *rapid.T) StressCase {
 		Churn:      rapid.IntRange(2, 32).Draw(t, "churn"),
 		Announcers: rapid.IntRange(1, 3).Draw(t, "announcers"),
 	}
-	maxRounds := 30
+	maxChunks := 4
 	if os.Getenv("VERIF_TIER") == "thorough" {
-		maxRounds = 60
+		maxChunks = 8
 	}
-	lo := rapid.IntRange(2, maxRounds-4).Draw(t, "minrounds")
-	c.Rounds = rapid.SliceOfN(rapid.Custom(func(t *rapid.T) Round {
+	chunks := rapid.SliceOfN(rapid.SliceOfN(rapid.Custom(func(t *rapid.T) Round {
 		a := rapid.Uint32().Draw(t, "m1")
 		b := rapid.Uint32().Draw(t, "m2")
 		m := a & b // each churn peer announces in about a quarter of the rounds
@@ -334,7 +340,10 @@ func genStress(t *rapid.T) StressCase {
 			m = 0xffffffff
 		}
 		return Round{Adv: rapid.IntRange(1, 7).Draw(t, "adv"), Churn: m, Settle: rapid.IntRange(0, 4).Draw(t, "settle") == 4}
-	}), lo, maxRounds).Draw(t, "rounds")
+	}), 1, 10), 1, maxChunks).Draw(t, "rounds")
+	for _, ch := range chunks {
+		c.Rounds = append(c.Rounds, ch...)
+	}
 	return c
 }
 
@@ -657,7 +666,7 @@ func runStress(c StressCase) pbt.Verdict {
 func TestProp(t *testing.T) {
 	pbt.Main(t, pbt.Spec{
 		ID: "C27",
-		Rule: "part model: 1-70 operations (announce with drawn address/port/flag, GetPeers(n) with n from 0 to beyond the population, clock advance by 1s..2*TTL, one entry-cleanup pass, one group-cleanup pass) over 2 torrents x 5 peers on a harness clock, applied to the real LocalStore and to a model of the latest announcement per (torrent, peer); every lookup must return <= n distinct peers that announced the torrent, each with the fields of its latest announcement, and a lookup with n >= number of peers that ever announced must contain every announcement younger than the TTL (older ones may or may not be returned). " +
+		Rule: "part model: 0-120 operations (about 30 on average) (announce with drawn address/port/flag, GetPeers(n) with n from 0 to beyond the population, clock advance by 1s..2*TTL, one entry-cleanup pass, one group-cleanup pass) over 2 torrents x 5 peers on a harness clock, applied to the real LocalStore and to a model of the latest announcement per (torrent, peer); every lookup must return <= n distinct peers that announced the torrent, each with the fields of its latest announcement, and a lookup with n >= number of peers that ever announced must contain every announcement younger than the TTL (older ones may or may not be returned). " +
 			"part stress: rounds of concurrent announcements (kept-alive peers every round, churn peers in random rounds, clock advanced < TTL per round) race with goroutines looping both cleanup passes and a reader; invariants: after each round a full lookup returns every announcement younger than TTL exactly as announced, concurrent lookups are distinct, <= n, field-consistent, never go back to an older announcement, and always contain the kept-alive peers. " +
 			"non-trivial (model) = a full lookup with a fresh peer and a cleanup pass that ran with an expired entry or with a renewed entry whose first announcement is older than TTL; (stress) = in at least one round an entry-cleanup pass completed while expired entries were being re-announced; distinct by case hash; evaluations (stress) = rounds",
 		Assumptions: []string{
